@@ -46,6 +46,9 @@ def correspond(ctx):
         G = matrix([x for col in Gc for x in col], (N, n), 'd'); A = matrix([x for col in Ac for x in col], (p, n), 'd')
         sp = rng.random() < 0.4
         Gm, Am = (sparse(G), sparse(A)) if sp else (G, A)
+        # mixed storage (every fifth / sixth system): G sparse with A dense, G dense with A sparse - branches of their own in kkt_chol2 / kkt_chol
+        if it % 5 == 1: Gm, Am, sp = sparse(G), A, 'G sparse, A dense'
+        elif it % 6 == 2: Gm, Am, sp = G, sparse(A), 'G dense, A sparse'
         hasQS = bool(dims['q'] or dims['s'])
         useP = rng.random() < 0.5; junkP = rng.random() < 0.5
         B = matrix([PR.rint(rng, 2) for _ in range(n * n)], (n, n))
@@ -100,7 +103,7 @@ def correspond(ctx):
                     scale_ = 1.0 + math.sqrt(blas.dot(bx, bx) + blas.dot(by, by) + abs(misc.sdot(bz, bz, dims))) + blas.nrm2(x) + blas.nrm2(zz)
                     if res > 1e-7 * scale_:
                         ctx.violation('c07:kkt-residual:' + nm, 'kkt_%s: residual %.3g of the documented block system (dims %s, %s, history step %d)' %
-                                      (nm, res / scale_, dims, 'sparse' if sp else 'dense', step), {'dims': dims, 'solver': nm, 'sparse': sp, 'step': step})
+                                      (nm, res / scale_, dims, sp if isinstance(sp, str) else ('sparse' if sp else 'dense'), step), {'dims': dims, 'solver': nm, 'sparse': sp, 'step': step})
                     if rep == 0: sols[nm] = (list(x), list(y), +zz)
             distinct.add((tuple(sorted(dims.items(), key=str)) if False else str(dims), sp, useP, step))
             if free and failed and sols:
